@@ -336,7 +336,7 @@ convert(struct func *f, struct type *dst, struct type *src, struct value *l)
 	return funcinst(f, op, class, l, r);
 }
 
-static void
+void
 calcvla(struct func *f, struct type *t)
 {
 	struct value *length, *basesize;
